@@ -10,6 +10,7 @@ package server
 import (
 	"context"
 	"fmt"
+	"net"
 	"sort"
 	"strings"
 	"testing/synctest"
@@ -37,7 +38,7 @@ type grState struct {
 	obs     []*simPeer
 	routes  map[viewKey]*grRoute
 	up      bool
-	gr      bool            // graceful restart negotiated on the current/last session
+	gr      bool             // graceful restart negotiated on the current/last session
 	grFams  map[wFamily]bool // families with preserved forwarding state (peer's capability, current/last session)
 	nbit    bool
 	restart bool // the peer is restarting (stale routes retained)
@@ -149,11 +150,21 @@ func genGR(seed uint64, tier, mode string) *Script {
 		// what happens next
 		switch g.n(4) {
 		case 0: // never comes back in time: walk over the deadline(s)
+			if g.p(40) {
+				add(Op{Kind: "wait", N: pick(g, []int{5500, 7000})})
+				add(Op{Kind: "failconn", Arg: pick(g, []string{"close", "badopen", "opencofirm"})})
+				add(Op{Kind: "probe"})
+			}
 			add(Op{Kind: "todeadline", N: -200})
 			add(Op{Kind: "probe"})
 			add(Op{Kind: "todeadline", N: 200})
 			add(Op{Kind: "probe"})
 			if mode == "llgr" {
+				if g.p(50) {
+					add(Op{Kind: "wait", N: pick(g, []int{5500, 7000})})
+					add(Op{Kind: "failconn", Arg: pick(g, []string{"close", "badopen", "opencofirm"})})
+					add(Op{Kind: "probe"})
+				}
 				add(Op{Kind: "tollgr", N: -200})
 				add(Op{Kind: "probe"})
 				add(Op{Kind: "tollgr", N: 200})
@@ -168,6 +179,11 @@ func genGR(seed uint64, tier, mode string) *Script {
 			}
 		default: // reconnects inside the window
 			add(Op{Kind: "wait", N: pick(g, []int{5500, 6000, 9000})})
+			if g.p(25) {
+				add(Op{Kind: "failconn", Arg: pick(g, []string{"close", "badopen", "opencofirm"})})
+				add(Op{Kind: "probe"})
+				add(Op{Kind: "wait", N: 5500})
+			}
 			if g.p(25) && len(fams) > 1 {
 				add(Op{Kind: "capfams", Arg: pick(g, []string{"ipv4-unicast", "ipv6-unicast", "ipv4-unicast,ipv6-unicast"})})
 			}
@@ -380,6 +396,41 @@ func grOp(w *simWorld, actor int, op *Op) {
 			st.eor = map[wFamily]bool{}
 			w.probe("p_established")
 		}
+	case "failconn":
+		// a reconnection attempt that fails before the session is established: nothing about
+		// the retained routes or the running timers may change because of it
+		if p.isUp() || st.deleted {
+			return
+		}
+		rip := net.ParseIP(p.cfg.Addr).To4()
+		a, b := w.net.pair(&net.TCPAddr{IP: w.net.serverIP, Port: 179}, &net.TCPAddr{IP: rip, Port: w.net.port()})
+		select {
+		case w.acceptCh <- net.NewSimTCPConn(a):
+		case <-w.stopCh:
+			return
+		}
+		s := w.newRawSess(b, "failconn")
+		grSettle()
+		switch op.Arg {
+		case "badopen":
+			// an OPEN with an unsupported version: answered with a NOTIFICATION, back to Idle
+			o := w.buildOpenSpec(p.cfg, openSpec{Kind: "badversion", Hold: 90, Families: p.cfg.Families, AS: p.cfg.AS})
+			b.Write(o)
+		case "opencofirm":
+			// a valid OPEN, then the connection goes away in OpenConfirm
+			peerOpen := p.buildOpen(false)
+			b.Write(peerOpen)
+			grSettle()
+		}
+		grSettle()
+		b.Close()
+		_ = s
+		grSettle()
+		w.probe("failed_reconnection_" + op.Arg)
+		if st.restart {
+			w.probe("failed_reconnection_while_restarting")
+		}
+		w.grCatchUp(st)
 	case "capfams":
 		st.capFams = strings.Split(op.Arg, ",")
 	case "ann":
